@@ -143,7 +143,12 @@ func (p *Protocol) RequestChunk(id ChunkID) (*Chunk, error) {
 	}
 	m, err := p.ReadMessage()
 	if err != nil {
-		return nil, err
+		// The server went away instead of answering. Don't pass on a bare EOF,
+		// readers up the stack would take that for the regular end of the data.
+		if err == io.EOF {
+			err = io.ErrUnexpectedEOF
+		}
+		return nil, errors.New("reading response from chunk server: " + err.Error())
 	}
 	switch m.Type { // TODO: deal with ABORT messages
 	case CaProtocolMissing:
